@@ -22,6 +22,8 @@ from .. import tlc
 
 PID = "C17"
 KEYS4 = ["BASE", "PATH", "CH", "DEFAULTS"]
+EMPT = ["LD_LIBRARY_PATH", "EMQ", "LIBS"]          # two cleared keys and a key that refers to them
+ALLKEYS = KEYS4 + EMPT
 
 
 def perms(names, maxlen):
@@ -60,18 +62,26 @@ def families(tier):
     fams = [
         # every selection x spelling x platform x interpreter x presence (absent / empty / with a key) of the four environments
         family_cfg("selection", sels=ALLSELS, spells=("lower", "mixed"), interps=(False, True),
-                   namedD=["BASE", "PATH"] if th else ["BASE"], namedP=["BASE", "CH"] if th else ["BASE"], pkgD=["BASE"], pkgP=["CH"] if th else ["BASE"]),
+                   # absent / empty as a whole / one key -- on p1 a key that is itself empty
+                   namedD=["BASE", "PATH"] if th else ["BASE"], namedP=["EMQ", "CH"] if th else ["EMQ"], pkgD=["BASE"],
+                   pkgP=["CH", "LD_LIBRARY_PATH"] if th else ["LD_LIBRARY_PATH"]),
         # one environment: every key subset x every DEFAULTS list (length 0..3, every order; imported names the environment
         # defines / does not define; the key referring to an imported name listed before / after it)
         family_cfg("defaults-orders", sels=("NaMe",), interps=(False, True), namedD=KEYS4, creatable=("named@default",), dlists=orders),
+        # cleared (empty-valued) keys: own key '' that is / is not a launch variable, referenced by another key, imported by DEFAULTS or not
+        family_cfg("defaults-empties", sels=("NaMe",), interps=(False, True), namedD=["PATH", "DEFAULTS"] + EMPT + (["BASE"] if th else []),
+                   creatable=("named@default",), dlists=perms(["LD_LIBRARY_PATH", "PATH", "IMP"], 3 if th else 2)),
+        family_cfg("named-empties", sels=("NaMe",), interps=(False, True), namedD=EMPT + ["DEFAULTS"], namedP=EMPT + ["DEFAULTS"],
+                   creatable=("named@default", "named@p1"), dlists=[["LD_LIBRARY_PATH"], ["IMP"]] + ([["IMP", "LD_LIBRARY_PATH"]] if th else [])),
         # named environment on both platforms: every key subset x a few DEFAULTS lists on the default platform x on p1
         family_cfg("named-keys", sels=("NaMe",), spells=("mixed", "lower") if th else ("lower",), interps=(False, True), namedD=KEYS4, namedP=KEYS4,
                    creatable=("named@default", "named@p1"),
                    dlists=[["BASE", "PATH"], ["PATH", "BASE"], ["IMP"]] + ([[], ["PATH", "IMP", "BASE"]] if th else [])),
         # package default environment selected implicitly / explicitly: key subsets on both platforms
         family_cfg("default-keys", sels=("unset", "environment") + (("empty", "ENVIRONMENT") if th else ()), interps=(False, True),
-                   pkgD=KEYS4 if th else ["BASE", "PATH", "DEFAULTS"], pkgP=KEYS4,
-                   creatable=("pkg@default", "pkg@p1"), dlists=[["PATH", "IMP"], ["BASE", "PATH"]] + ([["PATH", "BASE", "NOPE"]] if th else [])),
+                   pkgD=["BASE", "PATH", "LD_LIBRARY_PATH", "LIBS", "DEFAULTS"], pkgP=KEYS4 if th else ["BASE", "LD_LIBRARY_PATH", "DEFAULTS"],
+                   creatable=("pkg@default", "pkg@p1"),
+                   dlists=[["PATH", "IMP"], ["BASE", "PATH"]] + ([["PATH", "LD_LIBRARY_PATH", "NOPE"]] if th else [])),
     ]
     if th:
         # both kinds of environment with keys at once: the other kind must never matter
@@ -213,7 +223,7 @@ def run_case(case):
         else:
             out.append(("extra-key:%s:%s" % (cls, k if k in ("EXTRA", "DEFAULTS") else "other"), "%s: unexpected variable %s=%r" % (where, k, got[k]), rp))
     for k in sorted(set(want) - set(got)):
-        src = "system" if k in sysv else ("imported" if k in launch and k not in KEYS4 else "declared")
+        src = "system" if k in sysv else ("imported" if k in launch and k not in ALLKEYS else "declared")
         out.append(("missing:%s:%s" % (cls, src), "%s: variable %s missing, specification %r" % (where, k, want[k]), rp))
     for k in sorted(set(want) & set(got)):
         if got[k] != want[k]:
@@ -222,7 +232,7 @@ def run_case(case):
             if bad:
                 key = "leak:decoy-text:%s" % cls
             else:
-                key = "value:%s:%s" % (cls, k if k in KEYS4 + ["SYS"] else "imported")
+                key = "value:%s:%s" % (cls, k if k in ALLKEYS + ["SYS"] else "imported")
             out.append((key, "%s: variable %s should be %r, real %r" % (where, k, want[k], got[k]), rp))
     return out
 
@@ -272,7 +282,7 @@ def run(tier):
             which = r["violated"]
             if which == "CheckAndEmit":
                 # name the failing conjunct
-                for inv in ("ErrorIff", "NoLeak", "NoneIsEmpty", "SystemAlways", "NoForeignText", "PlatformOverDefault", "OwnBeforeLaunch", "ForeignIrrelevant"):
+                for inv in ("ErrorIff", "NoLeak", "NoneIsEmpty", "SystemAlways", "NoForeignText", "PlatformOverDefault", "OwnBeforeLaunch", "ForeignIrrelevant", "ClearedStaysCleared"):
                     if tlc_run(fam, fam["text"].replace("Emit = TRUE", "Emit = FALSE").replace("INVARIANT CheckAndEmit", "INVARIANT " + inv), 4)["violated"]:
                         which = inv
                         break
@@ -298,13 +308,17 @@ def run(tier):
     n_own = sum(1 for c in cases if c["expected"]["ok"] and c["class"] != "default-launch" and {"PATH", "BASE"} <= set(as_dict(c["expected"]["env"]))
                 and "DEFAULTS" in "".join(",".join(as_dict(x)) for x in as_dict(c["envs"]).values()))
     n_path = sum(1 for c in cases if c["interp"] and c["expected"]["ok"] and c["class"] in ("named", "none") and "PYTHONPATH" in as_dict(c["expected"]["env"]))
+    n_cleared = sum(1 for c in cases if c["expected"]["ok"] and "LIBS" in as_dict(c["expected"]["env"])
+                    and any("LD_LIBRARY_PATH" in as_dict(x) for x in as_dict(c["envs"]).values()))
+    n_emptyenv = sum(1 for c in cases if any(len(as_dict(x)) == 0 for x in as_dict(c["envs"]).values()))
     n_decoyplat = sum(1 for c in cases if c["plat"] == "default" and any(e.endswith("@p1") for e in as_dict(c["envs"])))
-    if not (n_err and n_launch and n_imp and n_layer and n_own and n_path and n_decoyplat):
+    if not (n_err and n_launch and n_imp and n_layer and n_own and n_path and n_decoyplat and n_cleared and n_emptyenv):
         raise MachineryError("emitted family is degenerate (a property antecedent is never true): errors %d, launch copies %d, imports %d, layered %d, "
                              "own-before-launch %d, interpreter paths %d, p1 environments while default is selected %d" % (
                                  n_err, n_launch, n_imp, n_layer, n_own, n_path, n_decoyplat))
     chk.cov["witnesses"] = {"error": n_err, "launch_copy": n_launch, "imported": n_imp, "layered": n_layer, "own_before_launch": n_own,
-                            "interpreter_paths": n_path, "other_platform_decoys": n_decoyplat}
+                            "interpreter_paths": n_path, "other_platform_decoys": n_decoyplat,
+                            "cleared_key_referenced": n_cleared, "environment_empty_as_a_whole": n_emptyenv}
     results = execute(cases)
     for case, res in zip(cases, results):
         chk.evaluated((case["family"], case["plat"], case["sel"], case["spell"], case["interp"], json.dumps(case["envs"], sort_keys=True)))
@@ -329,7 +343,9 @@ def run(tier):
     chk.assumptions += [
         "values refer to other variables at depth one (plus the self-referring PATH idiom); the expansion is modelled as the two single passes the "
         "property states (environment itself, then launch environment)",
-        "system variables and environment keys are disjoint; no empty values; no '$$' escapes; no %(variable)s inside environment values",
+        "system variables and environment keys are disjoint; no '$$' escapes; no %(variable)s inside environment values",
+        "empty values: own-first expansion also for cleared keys is the property; that a key which is empty before the expansion is left out of "
+        "the result (and that an interpreter gets a cleared search path variable back from launch) is modelled as the behaviour of the code",
         "two definitions of one name that differ only in case on the same platform are not enumerated",
         "the launch environment is replaced as a whole (os.environ) for the duration of each call"]
     return chk.finish()
